@@ -13,7 +13,7 @@ META = {
     'level': 'other',
     'technique': 'partial: Lean 4 theorem (containment of the unpacker for all tar streams without ".." in relative link targets, on a POSIX-like file-system model) '
                  '+ snapshot-exact correspondence of the model with unpack.UnpackSquashedFromTarball in a sandbox + before/after snapshots of scans',
-    'design_ref': 'DESIGN.md §5 C06, §6 rows 15, 16, 37; §7',
+    'design_ref': 'DESIGN.md §4 (section of C06), §5 (defects), §7 (seeded changes)',
     'text': 'Kernel-checked: for every sandbox state and every tar stream (any entry names — "..", ".", empty segments, absolute, prefix-confusable siblings, over-long — any '
             'order, files, links, directories, three passes, clean-up, early error) whose relative link targets contain no "..", the unpacker model changes nothing outside the '
             'target directory and leaves no link inside it that resolves outside (Safe invariant; physical resolution never leaves the directory). The full statement is false '
